@@ -60,6 +60,7 @@ def run(ctx):
     ctx.cov["good_requests"] = sum(1 for t in servers for e in t["ev"] if e["e"] == "good")
     ctx.cov["hostile_events"] = sum(1 for t in servers for e in t["ev"] if e["e"] == "bad")
     ctx.cov["discovery_runs"] = sum(1 for t in traces if t["op"] == "discover")
+    ctx.cov["keepalive_stalled_peer_runs"] = sum(1 for t in traces if t["op"] == "kastall" and t["xDropped"])
     ctx.cov["wildcard_listener_runs"] = sum(1 for t in traces if t["op"] == "wild" and t["usable"])
     ctx.cov["stuck_peer_runs"] = sum(1 for t in traces if t["op"] == "stuck" and t["busy"])
     for clause, idxs in sorted(bad.items()):
@@ -67,6 +68,10 @@ def run(ctx):
         t0 = min(ts, key=lambda t: len(t.get("ev", [])))
         if t0["op"] == "stuck":
             vf.report(ctx, clause, {"op": "stuck"}, "%d run(s): after the connection of a peer with a stuck handler and a full receive queue was closed, another peer was not served / the server could not be stopped: %s" % (len(ts), json.dumps(t0)),
+                      {"trace": t0, "cmd": "bin/check C10 --tier %s" % ctx.tier})
+            continue
+        if t0["op"] == "kastall":
+            vf.report(ctx, clause, {"op": "kastall"}, "a tcp server with keep-alive: the well-behaved peer did not survive the stalled peer: %s" % json.dumps(t0),
                       {"trace": t0, "cmd": "bin/check C10 --tier %s" % ctx.tier})
             continue
         if t0["op"] == "wild":
